@@ -483,9 +483,33 @@ def canOf (p : Packet) : Option (List CanFrame) :=
 def showCanLog (log : List CanFrame) : String :=
   if log.length ≤ 4 then joinOr (log.map showCan) "," else digest (log.map showCan)
 
+/-- serial device logs are printed in full up to 8 KiB -/
+def showSerialLog (bs : List UInt8) : String := if bs.length ≤ 8192 then hexBytes bs else showLogBytes bs
+
 def showSendResults (rs : List (Res SendErr Unit)) : String := String.intercalate "," (rs.map showSendRes)
 
 def parseFlushes (s : String) : List FlushResp := s.toList.map fun c => if c = 'o' then .ok else .ioError
+
+/-- C14 evaluated on a serial sender's own answer (`SendPieces` of `C14_serialSendMany_spec`, one flush per successful
+send, failures only where the device script has faults); `none` = satisfied -/
+def serialC14 (wires : List (List UInt8)) (r : List IoResp) (fl : String) (log : List UInt8) (nfl : Nat)
+    (res : List String) : Option String :=
+  -- is `log` a concatenation of one piece per send: a prefix of that send's wire, the whole wire when it returned ok?
+  let rec pieces (log : List UInt8) (ws : List (List UInt8)) (rs : List String) : Bool :=
+    match ws, rs with
+    | [], [] => log.isEmpty
+    | w :: wt, r :: rt =>
+      if r == "ok" then w.isPrefixOf log && pieces (log.drop w.length) wt rt
+      else (List.range (w.length + 1)).any fun k => (w.take k).isPrefixOf log && pieces (log.drop k) wt rt
+    | _, _ => false
+  let oks := (res.filter (· == "ok")).length
+  let faultFree := r.all (fun x => match x with | .ioError => false | .wrote n => n != 0 | .interrupted => true) && fl.all (· == 'o')
+  if res.contains "panic" then some "a send panicked"
+  else if !pieces log wires res then
+    some "the bytes on the device are not, per send, a prefix of its wire image (the whole image when it returned Ok)"
+  else if nfl < oks then some "a send returned Ok without flushing"
+  else if faultFree && res.any (· != "ok") then some "a send failed although the device never failed"
+  else none
 
 /-- `tx <link> <packet[+packet…]> <responses> [flush answers]`: sends made one after the other on one instance -/
 def scenTx (toks : List String) (obs : String) : Verdict :=
@@ -507,13 +531,33 @@ def scenTx (toks : List String) (obs : String) : Verdict :=
       let r ← parseIoResps rs
       let uss ← pks.mapM bodiesOf
       let (w, n, res) := serialSendMany uss r (parseFlushes fl)
-      pure (showLogBytes w ++ "/f" ++ toString n ++ " " ++ showSendResults res)
+      pure (showSerialLog w ++ "/f" ++ toString n ++ " " ++ showSendResults res)
     | _ => none
   match ans with
   | none => .bad "parse"
   | some a =>
     if a == obs then .ok
-    else .prop "C14" "bytes/frames on the device or the results differ from the byte-exact wire image" a
+    else
+      -- serial port: which write call meets which device answer depends on how the sender groups its writes, which no
+      -- property fixes; when the log is short enough to be printed in full, C14 itself is evaluated on the
+      -- implementation's answer (`SendPieces` of `C14_serialSendMany_spec`, one flush per successful send, faults only
+      -- where the script has faults)
+      match toks with
+      | ["serial", ps, rs, fl] =>
+        match (ps.splitOn "+").mapM parsePacket, parseIoResps rs, obs.splitOn " " with
+        | some pks, some r, [logf, results] =>
+          match logf.splitOn "/f", pks.mapM bodiesOf with
+          | [logHex, nfl], some uss =>
+            if logHex.startsWith "#" then .prop "C14" "bytes on the device or the results differ from the byte-exact wire image" a else
+            match parseBytes logHex with
+            | none => .bad "log"
+            | some log =>
+              match serialC14 (uss.map wireOf) r fl log (nfl.toNat?.getD 0) (results.splitOn ",") with
+              | some clause => .prop "C14" clause a
+              | none => .note "serial sender meets the device's answers at other write calls (log and results still satisfy C14)"
+          | _, _ => .prop "C14" "bytes on the device or the results differ from the byte-exact wire image" a
+        | _, _, _ => .prop "C14" "bytes on the device or the results differ from the byte-exact wire image" a
+      | _ => .prop "C14" "bytes/frames on the device or the results differ from the byte-exact wire image" a
 
 /-- `psend <link> <own> <packet> <responses> [flush answers]`: `send_packet` over a real link sender (C16 composed with
 C14): own-address packets go to the local handler once and not to the link (unless the own address is broadcast);
@@ -543,7 +587,7 @@ def scenPsend (toks : List String) (obs : String) : Verdict :=
           let r ← parseIoResps rs
           let us ← bodiesOf p
           let (w, n, res) := serialSendMany [us] r (parseFlushes (rest.headD "o"))
-          pure (showLogBytes w ++ "/f" ++ toString n ++ " " ++ showSendResults res ++ h)
+          pure (showSerialLog w ++ "/f" ++ toString n ++ " " ++ showSendResults res ++ h)
       match ans with
       | none => .bad "parse"
       | some a =>
@@ -553,7 +597,24 @@ def scenPsend (toks : List String) (obs : String) : Verdict :=
           let routeOf (o : String) : String × Bool :=
             (((o.splitOn " ").getLast?).getD "", (o.startsWith "-/f0 " || o.startsWith "- "))
           if routeOf a != routeOf obs then .prop "C16" "a sent packet is not routed to local handlers / the link as addressed" a
-          else .prop "C16,C14" "a packet sent through the protocol does not reach the link unmodified, exactly once" a
+          else
+            -- serial port: evaluate the predicate on the implementation's own answer (see `scenTx`)
+            let viaPredicate : Option Verdict :=
+              if link != "serial" then none else
+              match obs.splitOn " ", parseIoResps rs, bodiesOf p with
+              | [logf, result, _], some r, some us =>
+                (match logf.splitOn "/f" with
+                  | [logHex, nfl] =>
+                    if logHex.startsWith "#" then none else
+                    (parseBytes logHex).map fun log =>
+                      match serialC14 [wireOf us] r (rest.headD "o") log (nfl.toNat?.getD 0) [result] with
+                      | some clause => .prop "C16,C14" clause a
+                      | none => .note "serial sender meets the device's answers at other write calls (log and results still satisfy C14)"
+                  | _ => none)
+              | _, _, _ => none
+            match viaPredicate with
+            | some v => v
+            | none => .prop "C16,C14" "a packet sent through the protocol does not reach the link unmodified, exactly once" a
     | _, _ => .bad "parse"
   | _ => .bad "parse"
 
